@@ -65,6 +65,7 @@ class Tr:
         self.lifted = []
         self.nloops = 0
         self.ret = spec['ret']
+        self.written = set()                            # heap fields this function writes (directly or through callees)
         self.OBJ = spec.get('obj_type', 'obj')          # Coq type of an object reference
         self.GET = spec.get('heap_get', 'get')          # heap accessors
         self.UPD = spec.get('heap_upd', 'upd')
@@ -737,6 +738,7 @@ class Tr:
                 and s.targets[0].attr in sp.get('prop_setters', {}):
             tgt = s.targets[0]
             fn, vtype = sp['prop_setters'][tgt.attr]
+            self.written |= set(sp.get('mutator_writes', {}).get(tgt.attr, ['*']))
 
             def with_target(x, tx):
                 def call_setter(x1):
@@ -766,6 +768,7 @@ class Tr:
                 and s.value.func.attr in sp.get('self_mutators', {}):
             call = s.value
             fn, formals = sp['self_mutators'][call.func.attr]
+            self.written |= set(sp.get('mutator_writes', {}).get(call.func.attr, ['*']))
             given = {}
             if len(call.args) > len(formals):
                 raise Unsupported('too many arguments in %s' % ast.unparse(call))
@@ -809,6 +812,7 @@ class Tr:
             tgt = s.targets[0]
             setter = writes[tgt.attr]
             ftype = sp['obj_attrs'][tgt.attr][1]
+            self.written.add(tgt.attr)
 
             def with_obj(x, tx):
                 if tx != self.OBJ:
@@ -837,6 +841,7 @@ class Tr:
             fld = s.targets[0].value
             setter = writes[fld.attr]
             ftype = sp['obj_attrs'][fld.attr][1]
+            self.written.add(fld.attr)
 
             def with_obj2(x, tx):
                 if tx != self.OBJ:
@@ -855,6 +860,7 @@ class Tr:
                     and len(call.args) == 1 and not call.keywords:
                 getter = sp['obj_attrs'][recv.attr][0]
                 setter = writes[recv.attr]
+                self.written.add(recv.attr)
 
                 def with_owner(x, tx):
                     if tx != self.OBJ:
@@ -875,6 +881,7 @@ class Tr:
                     and len(call.args) == 2 and not call.keywords and 'list_insert' in self.ops:
                 getter = sp['obj_attrs'][recv.attr][0]
                 setter = writes[recv.attr]
+                self.written.add(recv.attr)
 
                 def with_owner_i(x, tx):
                     if tx != self.OBJ:
@@ -891,6 +898,7 @@ class Tr:
             mm = sp.get('method_mutators', {})
             if meth in mm and not call.keywords:
                 fn, argtypes = mm[meth]
+                self.written |= set(sp.get('mutator_writes', {}).get(meth, ['*']))
 
                 def with_recv(x, tx):
                     if tx != self.OBJ:
@@ -1289,9 +1297,47 @@ class Tr:
                 st, self.ops.get('fold', 'fold_res'), st, x, pat, st, body, a, pass_vars(env), pat, st, after)
         return self.expr(s.iter, env, with_iter)
 
+    def live_iteration_guard(self, s):
+        """A `for` over a list that lives in the heap (`x.__children` ...) is translated as a loop over the list as it is
+        when the loop starts; Python walks the LIVE list.  The two agree only if the body does not change that list:
+        refused unless the body writes no field of that name - directly, or through a translated method / setter whose
+        written fields the spec does not declare (`mutator_writes`) as disjoint from it."""
+        sp = self.spec
+        it = s.iter
+        if not (isinstance(it, ast.Attribute) and it.attr in sp.get('obj_attrs', {}) and sp.get('obj_writes')):
+            return
+        fld = it.attr
+        fields = {fld, fld.lstrip('_'), '__' + fld.lstrip('_')}           # the public getter and the private list are one list
+        declared = sp.get('mutator_writes', {})
+        for n in ast.walk(ast.Module(body=list(s.body), type_ignores=[])):
+            tgt = None
+            if isinstance(n, ast.Assign):
+                for t in n.targets:
+                    t0 = t.value if isinstance(t, ast.Subscript) else t
+                    if isinstance(t0, ast.Attribute) and (t0.attr in fields):
+                        tgt = ast.unparse(t)
+                    if isinstance(t0, ast.Attribute) and t0.attr in sp.get('prop_setters', {}):
+                        w = declared.get(t0.attr)
+                        if w is None or fields & set(w):
+                            tgt = ast.unparse(t) + ' (a setter that may write %s)' % fld
+            if isinstance(n, ast.AugAssign) and isinstance(n.target, ast.Attribute) and n.target.attr in fields:
+                tgt = ast.unparse(n.target)
+            if isinstance(n, ast.Call) and isinstance(n.func, ast.Attribute):
+                if n.func.attr in ('remove', 'append', 'insert', 'sort', 'clear', 'pop', 'extend', 'reverse') \
+                        and isinstance(n.func.value, ast.Attribute) and n.func.value.attr in fields:
+                    tgt = ast.unparse(n.func)
+                name = n.func.attr
+                if name in sp.get('method_mutators', {}) or name in sp.get('self_mutators', {}) or ast.unparse(n.func) in sp.get('state_calls', {}):
+                    w = declared.get(name)
+                    if w is None or fields & set(w):
+                        tgt = ast.unparse(n.func) + ' (may write %s)' % fld
+            if tgt is not None:
+                raise Unsupported('the loop walks %s while its body changes it through %s: Python walks the live list' % (ast.unparse(it), tgt))
+
     def for_loop(self, s, rest, env, fall, outer):
         if s.orelse or not isinstance(s.target, ast.Name):
             raise Unsupported('for-loop form')
+        self.live_iteration_guard(s)
         if self.spec.get('loops') == 'fold':
             return self.fold_loop(s, rest, env, fall, outer)
         if any(isinstance(n, (ast.For, ast.While)) for st in s.body for n in ast.walk(st)):
@@ -1427,6 +1473,12 @@ class Tr:
                 return 'Ok (%s, tt)' % self.state_value(env1) if st else 'Ok tt'
             raise Unsupported('control can fall off the end of the function')
         body = self.block(list(fn.body), env, fall)
+        if 'writes' in sp:
+            # what callers may assume about this function when they loop over a heap list (live_iteration_guard)
+            norm = lambda f: '__' + f.lstrip('_')
+            extra = {norm(f) for f in self.written if f != '*'} - {norm(f) for f in sp['writes']}
+            if extra or ('*' in self.written and '*' not in sp['writes']):
+                raise Unsupported('the spec declares that this function writes %s, its body writes %s' % (sorted(sp['writes']), sorted(self.written)))
         if sp.get('recursive'):
             # a function that calls itself: structural recursion on an explicit fuel; running out of it is Python's
             # RecursionError (the depth exceeds the fuel only when the object graph has a cycle or is deeper than the fuel)
